@@ -36,6 +36,11 @@ func (c *c08Case) base() string {
 		return "select key, count(1) where value = 'y' group by key"
 	case "aggr-ordered":
 		return "select key, count(1) where value = 'y' group by key order by key desc"
+	case "aggr-all":
+		// no GROUP BY: one row for all accepted pairs (none when nothing is accepted)
+		return "select count(1), sum(strlen(key)) where value = 'y'"
+	case "aggr-all-ordered":
+		return "select count(1) as c, sum(strlen(key)) where value = 'y' order by c desc"
 	case "aggr-groups":
 		// groups with several members that interleave in key order
 		return "select value, count(1) where value ^= 'y' group by value"
@@ -79,14 +84,14 @@ func (c08) Info() core.Info {
 		ID:    "C08",
 		Title: "LIMIT returns exactly the requested slice of the unlimited result",
 		Level: "exploration",
-		Rule: "exhaustive grid: offset s and count n in 0..2B+1, result size R in 0..3B+1 (all-accept stores) and all 2^8 accept/reject patterns of a value filter over an 8-pair store (every refill-size sequence), batch sizes B in {1,2,3,4} (+32 with boundary values {0,1,31,32,33,63,64,65}); kinds select/ordered/aggregate/aggregate+order/delete; both `limit s,n` and `limit n`; row and batch drains. " +
+		Rule: "exhaustive grid: offset s and count n in 0..2B+1, result size R in 0..3B+1 (all-accept stores) and all 2^8 accept/reject patterns of a value filter over an 8-pair store (every refill-size sequence), batch sizes B in {1,2,3,4} (+32 with boundary values {0,1,31,32,33,63,64,65}); kinds select/ordered/aggregate/aggregate+order/aggregate without GROUP BY/delete; both `limit s,n` and `limit n`; row and batch drains. " +
 			"Oracle: rows (or deleted keys) == rows [s,s+n) of the same statement without LIMIT in the same mode, which is itself compared with the reference model. Non-trivial: s>0, n>0 and the slice is a proper non-empty part of the unlimited result. Distinct: (kind,store,s,n,B,mode).",
 		Assumptions:      []string{"storage implements the snapshot-cursor contract of DESIGN.md §2", "ORDER BY keys are unique except in the ordered-ties kind, which uses the tolerant oracle (a slice of some valid sorted order)"},
 		CrashIsViolation: true,
 	}
 }
 
-var c08Kinds = []string{"select", "ordered", "aggr", "aggr-ordered", "delete", "ordered-ties", "delete-in", "aggr-groups", "aggr-groups-ordered"}
+var c08Kinds = []string{"select", "ordered", "aggr", "aggr-ordered", "delete", "ordered-ties", "delete-in", "aggr-groups", "aggr-groups-ordered", "aggr-all", "aggr-all-ordered"}
 
 type c08Unit struct {
 	kind string
@@ -278,6 +283,14 @@ func c08RunUnlimited(c *c08Case) *c08Unlimited {
 	case "aggr":
 		for _, p := range acc {
 			want = append(want, ref.T(p.K).Canon()+" | "+ref.I(1).Canon())
+		}
+	case "aggr-all", "aggr-all-ordered":
+		if len(acc) > 0 {
+			var sl int64
+			for _, p := range acc {
+				sl += int64(len(p.K))
+			}
+			want = append(want, ref.I(int64(len(acc))).Canon()+" | "+ref.I(sl).Canon())
 		}
 	case "aggr-groups", "aggr-groups-ordered":
 		cnt := map[string]int64{}
